@@ -1,19 +1,13 @@
 /-
-Expected statement skeletons of the image code the C20 model transcribes by hand (compared with the regenerated
-`Gen.ImageFlow` by `Props.C20Ext.facts_*`; each says which model definition rests on it).
+Expected texts of what `Gen.ImageFlow` still pins as text (compared by `Props.C20Ext.facts_kitty_formats`): the format
+strings of the kitty graphics commands.  The harness's regular expression (`harness/cmd/C20`: reGfx) parses exactly
+these shapes.
 -/
 namespace VaxisModel.Lemmas.ImageFlowExpected
 
-def kittyResizeUpload : List String := ["atomicStore(&k.uploaded, false)",
-  "for buf.Len() > 0 { n, err := buf.Read(b) if err == io.EOF { break } m := 1 if buf.Len() == 0 { m = 0 } fmt.Fprintf(k.buf, \"\\x1B_Gf=100,i=%d,m=%d;%s\\x1B\\\\\", k.id, m, string(b[:n])) }"]
-
-def kittyWriteFunc : List String := ["if !atomicLoad(&k.uploaded) { w.Write(k.buf.Bytes()) atomicStore(&k.uploaded, true) k.buf.Reset() }",
-  "fmt.Fprintf(w, \"\\x1B_Ga=p,i=%d,p=%d,C=1\\x1B\\\\\", k.id, pid)"]
-
-def halfDraw : List String := ["col, row := win.Origin()",
-  "log.Trace(\"placing half block image at cell %d,%d\", col, row)",
-  "for i, cell := range hb.cells { y := i / hb.width x := i - (y * hb.width) win.SetCell(x, y, cell) }"]
-
-def fullDrawLoop : List String := ["for i, cell := range fb.cells { y := i / fb.width x := i - (y * fb.width) win.SetCell(x, y, Cell{ Character: Character{ Grapheme: \" \", Width: 1, }, Style: Style{ Background: cell, }, }) }"]
+def kittyFormats : List String := ["Draw: \"\\x1B_Ga=p,i=%d,p=%d,C=1\\x1B\\\\\"",
+  "Draw: \"\\x1B_Ga=d,d=i,i=%d,p=%d\\x1B\\\\\"",
+  "Resize: \"\\x1B_Gf=100,i=%d,m=%d;%s\\x1B\\\\\"",
+  "Destroy: \"\\x1B_Ga=d,d=I,i=%d\\x1B\\\\\""]
 
 end VaxisModel.Lemmas.ImageFlowExpected
